@@ -16,19 +16,21 @@ ALL_MODES = ("WebRtc", "Srtp", "Rtp")
 LOCAL = ("fresh", "changed", "unchanged")
 REMOTE = ("fresh", "changed", "unchanged", "nofp", "badalg", "mid65535")
 NEGOTIATED = ("fresh", "offerer", "answerer")
+MEDIA_OPS = ("add_transceiver", "create_data_channel", "add_track")
 
 
 def S(xs):
     return "{" + ", ".join('"%s"' % x for x in xs) + "}"
 
 
-def ncalls(local, remote):
-    return 3 + (3 * len(local) + 1) + (3 * len(remote) + 1)
+def ncalls(local, remote, ops=MEDIA_OPS):
+    return 3 + len(ops) + (3 * len(local) + 1) + (3 * len(remote) + 1)
 
 
-def scen(label, kind, maxlen, pres, modes=ALL_MODES, remote=REMOTE, sim=None, medias=("av",), envs=("ok",)):
+def scen(label, kind, maxlen, pres, modes=ALL_MODES, remote=REMOTE, sim=None, medias=("av",), envs=("ok",),
+         ops=None):
     return dict(label=label, kind=kind, maxlen=maxlen, pres=pres, modes=modes, local=LOCAL, remote=remote, sim=sim,
-                medias=medias, envs=envs)
+                medias=medias, envs=envs, ops=MEDIA_OPS if ops is None else ops)
 
 
 # "connected": a really connected WebRtc pair (ICE + DTLS up); the class "otherfp" (well-formed description carrying
@@ -49,7 +51,7 @@ TIERS = {
         scen("data-channel/len3", "bounded", 3, NEGOTIATED, modes=("WebRtc",), medias=("dc", "avdc")),
         # (all three modes were run once: 3 145 728 program runs, 12.6 M calls, no divergence; Srtp is left out
         #  of the registered tier for time)
-        scen("all-sequences/len4/fresh", "bounded", 4, ("fresh",), modes=("WebRtc", "Rtp")),
+        scen("all-sequences/len4/fresh", "bounded", 4, ("fresh",), modes=("WebRtc", "Rtp"), ops=()),
         scen("random/len6", "sim", 6, NEGOTIATED, sim=60000),
     ],
 }
@@ -73,6 +75,7 @@ CONSTANTS
   Pres = {S(sc['pres'])}
   Modes = {S(sc['modes'])}
   Medias = {S(sc['medias'])}
+  MediaOps = {S(sc.get('ops', MEDIA_OPS))}
   Envs = {S(sc['envs'])}
   LocalClasses = {S(sc['local'])}
   RemoteClasses = {S(sc['remote'])}
@@ -192,7 +195,7 @@ def run(tier):
             programs, pres_ = gen_programs(ck, sc, tag)
             nprog = pres_["counts"]["PROGRAM"]
             if sc["kind"] == "bounded":
-                expect = ncalls(sc["local"], sc["remote"]) ** sc["maxlen"] * len(sc["pres"])
+                expect = ncalls(sc["local"], sc["remote"], sc.get("ops", MEDIA_OPS)) ** sc["maxlen"] * len(sc["pres"])
                 if nprog != expect:
                     raise vlib.ToolError(f"{sc['label']}: TLC printed {nprog} programs, expected {expect}")
                 exhaustive = exhaustive and pres_["finished"] and tres["finished"]
